@@ -58,6 +58,7 @@ def run(tier, seed):
     cases = make_cases(tier, rng)
     obs, crashes = vlib.run_cases(binary, "TestStderrCases", cases, "c10", shards=min(8, vlib.NCPU))
     by = {c["name"]: c for c in cases}
+    nhung = len(vlib.hung_cases(obs))
     for name in vlib.hung_cases(obs):
         rep.violation("c10:hang", "the host stopped consuming plugin output: case %s" % json.dumps(by[name])[:300], {"case": by[name], "dump": obs[name].get("dump", "")[:6000]})
         del obs[name]
@@ -66,7 +67,7 @@ def run(tier, seed):
         rep.violation("c10:crash:" + "+".join(sorted(set(kinds))), "the host process died while reading plugin output (stderr kinds %s): %s" % (kinds, out[-400:]),
                       {"case": by[name], "output": out})
     obs_list = [obs[c["name"]] for c in cases if c["name"] in obs]
-    if len(obs_list) + len(crashes) < len(cases):
+    if len(obs_list) + len(crashes) + nhung < len(cases):
         raise vlib.Inconclusive("missing observations")
     r2, dev = vlib.judge_observations("TraceLogStderr", "trace_logstderr.cfg", obs_list, "c10")
     for name in dev:
